@@ -95,6 +95,24 @@ def compare_ops(chk, r, ddf, kind_of_active, prov, rep, boxes, right=None):
         if t1 != t0:
             chk.violation(sig("total_bounds-differs"), dict(rep, dask=t1, pandas=t0)); return
         chk.count("op:elementwise+total")
+        # every geometry column selected as a series answers like the pandas column (cached partition bounds must still apply)
+        for c in geom_cols:
+            gs1, gs0 = ddf[c], pdf[c]
+            tc1 = [f(x) for x in gs1.total_bounds]; tc0 = [f(x) for x in gs0.total_bounds]
+            if tc1 != tc0:
+                chk.violation(sig("column-total_bounds-differs/" + ("active" if c == active else "other-geometry-column")),
+                              dict(rep, column=c, dask=tc1, pandas=tc0)); return
+            pb = gs1.partition_bounds
+            want = [[f(x) for x in p[c].total_bounds] for p in parts]
+            if [[f(x) for x in row] for row in pb.values.tolist()] != want:
+                chk.violation(sig("column-partition_bounds-differ/" + ("active" if c == active else "other-geometry-column")),
+                              dict(rep, column=c, dask=pb.values.tolist(), true=want)); return
+            for box in boxes[:2]:
+                s1 = gs1.cx[box[0]:box[2], box[1]:box[3]].compute(); s0 = gs0.cx[box[0]:box[2], box[1]:box[3]]
+                if list(s1.index) != list(s0.index):
+                    chk.violation(sig("column-cx-differs/" + ("active" if c == active else "other-geometry-column")),
+                                  dict(rep, column=c, box=list(box), dask=list(s1.index), pandas=list(s0.index))); return
+        chk.count("op:per-column-series", len(geom_cols))
         # partition model
         active_els = [geo.to_elements(p[active].array) for p in parts]
         exact = all(all(isinstance(c, (int, float)) and float(c) == int(c) for v in geo.verts_of(kind_of_active, e) for c in v) for pe in active_els for e in pe)
